@@ -7,7 +7,7 @@
 From Coq Require Import List Bool ZArith Lia.
 Import ListNotations.
 From Rosed Require Import Base.Res Base.ListX Base.Utf8 Base.Str Gem.Segment Gem.GString Model.Manip Model.Table Model.Options Model.Editor Model.Ops
-     Proofs.C04P Proofs.C14P Proofs.C18P Proofs.SeamP Proofs.C18Q Proofs.C18R Proofs.C14R Proofs.C18S Proofs.C18T.
+     Proofs.C04P Proofs.C14P Proofs.C18P Proofs.SeamP Proofs.C18Q Proofs.C18R Proofs.C14R Proofs.C18S Proofs.C18T Proofs.C18U.
 Open Scope Z_scope.
 
 (* Chars / Insert / Delete / Overtype on any valid UTF-8 text, any integer positions *)
@@ -134,3 +134,48 @@ Proof.
   exact (conj (collapse_space_valid opts e r) (conj (wrap_valid width opts e r) (align_valid align width opts e r))).
 Qed.
 Print Assumptions C18_valid_layout.
+
+(* paragraph mode: every operation writes, per paragraph, the encoding of what its paragraph
+   function returns, joined by the paragraph separator - valid for every text, valid or not,
+   and whatever the function returns *)
+Theorem C18_valid_paragraph_mode : forall (C : Classifier) (U : Upper) op opts e r,
+  valid_utf8 (o_parasep (with_defaults opts)) = true -> apply_gparagraphs op opts e = Ok r -> valid_utf8 (e_text r) = true.
+Proof. intros C U. exact apply_gparagraphs_valid. Qed.
+Print Assumptions C18_valid_paragraph_mode.
+
+Theorem C18_valid_layout_paragraphs : forall (C : Classifier) (U : Upper) width align level opts e r,
+  o_preserve (with_defaults opts) = true -> valid_utf8 (o_parasep (with_defaults opts)) = true ->
+  (wrap_opts width opts e = Ok r -> valid_utf8 (e_text r) = true) /\
+  (justify_opts width opts e = Ok r -> valid_utf8 (e_text r) = true) /\
+  (valid_utf8 (e_text e) = true -> align_opts align width opts e = Ok r -> valid_utf8 (e_text r) = true) /\
+  (valid_utf8 (e_text e) = true -> indent_opts level opts e = Ok r -> valid_utf8 (e_text r) = true).
+Proof.
+  intros C U width align level opts e r Hp Hv.
+  exact (conj (wrap_valid_paras width opts e r Hp Hv) (conj (justify_valid_paras width opts e r Hp Hv)
+        (conj (align_valid_paras align width opts e r Hp Hv) (indent_valid_paras level opts e r Hp Hv)))).
+Qed.
+Print Assumptions C18_valid_layout_paragraphs.
+
+(* line mode: the line-separator join of what the line function returns; Justify of every line *)
+Theorem C18_valid_line_mode : forall (C : Classifier) (U : Upper) (op : line_op) opts e r,
+  (forall k l r, op k l = Ok r -> Forall (fun x => valid_utf8 x = true) r) ->
+  valid_utf8 (o_linesep (with_defaults opts)) = true -> apply_opts op opts e = Ok r -> valid_utf8 (e_text r) = true.
+Proof. intros C U. exact apply_opts_valid. Qed.
+Print Assumptions C18_valid_line_mode.
+
+Theorem C18_valid_justify_all_lines : forall (C : Classifier) (U : Upper) width opts e r,
+  o_preserve (with_defaults opts) = false -> o_justlast (with_defaults opts) = true ->
+  valid_utf8 (o_linesep (with_defaults opts)) = true -> justify_opts width opts e = Ok r -> valid_utf8 (e_text r) = true.
+Proof. intros C U. exact justify_valid_all. Qed.
+Print Assumptions C18_valid_justify_all_lines.
+
+(* Insert, Delete, Overtype: valid text (and valid inserted text) in, valid text out *)
+Theorem C18_valid_edits : forall (C : Classifier) (U : Upper) p q x e r, valid_utf8 (e_text e) = true ->
+  (valid_utf8 x = true -> insert p x e = Ok r -> valid_utf8 (e_text r) = true) /\
+  (delete p q e = Ok r -> valid_utf8 (e_text r) = true) /\
+  (overtype p x e = Ok r -> valid_utf8 (e_text r) = true).
+Proof.
+  intros C U p q x e r He.
+  exact (conj (fun Hx => insert_valid p x e r He Hx) (conj (delete_valid p q e r He) (overtype_valid p x e r He))).
+Qed.
+Print Assumptions C18_valid_edits.
